@@ -3,14 +3,15 @@
 import json,os,shutil,sys,subprocess
 pid,n,ran,res=sys.argv[1],sys.argv[2],sys.argv[3],sys.argv[4]
 dst=sys.argv[5] if len(sys.argv)>5 else n
-so=f'/tmp/seed/{pid}/SEED_OUT'
+root=os.environ.get('SEED_ROOT','/tmp/seed')
+so=f'{root}/{pid}/SEED_OUT'
 d=f'/verif/seeded/{pid}-{dst}'
 os.makedirs(d,exist_ok=True)
 shutil.copy(f'{so}/patch{n}.diff', f'{d}/patch.diff')
 if os.path.exists(f'{d}/demo'): shutil.rmtree(f'{d}/demo')
 shutil.copytree(f'{so}/demo{n}', f'{d}/demo', ignore=shutil.ignore_patterns('out','target','*.log','node_modules'))
 m=json.load(open(f'{so}/meta{n}.json'))
-base=subprocess.check_output(['git','-C',f'/tmp/seed/{pid}','log','--format=%h','-1']).decode().strip()
+base=subprocess.check_output(['git','-C',f'{root}/{pid}','log','--format=%h','-1']).decode().strip()
 meta={"property":pid,"summary":m.get('summary'),"needs_to_manifest":m.get('needs_to_manifest'),"files_touched":m.get('files_touched'),
       "base_commit":base,
       "confirmed":"selftest/confirm_seed.sh in the agent's scratch worktree: unpatched demo passes; patched tree builds, 84 pinned tests pass, demo fails",
